@@ -238,8 +238,8 @@ def roundtrips(ctx, exe, camp, per_doc, known_ids, workers=6):
 
 
 def run(ctx):
-    ctx.level = "other"
     proved = common.proof_stage(ctx)
+    ctx.level = "proof" if proved else "other"
     exe, log = common.build_server()
     if exe is None:
         ctx.violation(dict(kind="build-failure", what="lsp4spl does not build", log=log[-3000:]), no_input=True)
@@ -379,7 +379,10 @@ EXPLANATION = (
     "other occurrences bound to the same declaration, rename = one edit per occurrence of the binding incl. the declaration and null for "
     "predefined entities, prepareRename = the identifier's range exactly when rename is offered - with occurrences and bindings computed "
     "from the TREE alone (Spec/Nav.v), not from the symbol table the handlers use; the answers are even equal as lists in tree order.  NOT "
-    "proved: C13_full_statement in its wording `document without diagnostics` (needs front-end completeness).  It is no "
+    "proved: nothing of the first half - C13_full (documents without diagnostics) follows by front-end completeness.  The second half, the "
+    "rename round trip, is C13_roundtrip_valid / C13_roundtrip (alpha-renaming preserves well_typed; the renamed text is the layout of the "
+    "renamed program; bindings correspond position by position; renaming back restores the text) for every binding except the procedure "
+    "`main`, where the unrestricted statement is refuted (renaming main adds `main is missing`).  The first half was once refuted and is no "
     "longer refuted: on the witnesses of the four findings repaired by b909979 (now regression corpus) and on a program with every "
     "local/global name collision it holds at every occurrence (C13_repaired_witnesses_agree, by vm_compute), and no counterexample is "
     "known.  C13_roundtrip_statement (apply the edits: same diagnostics, same binding partition, rename back restores the text) is stated "
